@@ -23,6 +23,16 @@ Theorem C19_no_needless_sleep : forall api d t e, snd (wait (limit api) window d
 Proof. exact shipped_no_needless_sleep. Qed.
 Print Assumptions C19_no_needless_sleep.
 
+(* ... and when it is called in a reachable state the window is not free: the N most recent requests all started less
+   than one window before the caller's arrival, so starting at once would put N + 1 starts into one window *)
+Theorem C19_sleep_means_window_full : forall api cs c, Forall call_ok cs -> call_ok c ->
+  let s := run (limit api) window cs in let t := now s + gap c in
+  snd (wait (limit api) window (dq s) t (eps c)) <> 0 ->
+  (limit api <= length (filter (fun x => (t - window <? x)%Z) (firstn (limit api) (hist s))))%nat
+  /\ length (firstn (limit api) (hist s)) = limit api.
+Proof. exact shipped_sleep_means_window_full. Qed.
+Print Assumptions C19_sleep_means_window_full.
+
 (* cache decision: a request is issued iff no cache path, no file, empty file, or overwrite *)
 Theorem C19_request_iff : forall server f c,
   fst (snd (fetch server f c)) = true <->
